@@ -842,6 +842,14 @@ func VerifyFunction(c *Ctx, fn *ssa.Function, ct *Contract, want func(string, []
 			st.assume(ev.Bool(r.E))
 		}
 	}
+	if fn.Pkg != nil {
+		for _, gi := range ex.c.Specs.GlobalInvs {
+			if gi.PkgPath == fn.Pkg.Pkg.Path() {
+				st.assume(ev.Bool(gi.E))
+				ex.assumed["globalinv:"+gi.Name] = gi.Src
+			}
+		}
+	}
 	ex.cover(st, ex.key, "cover:pre", ex.funcTags(ct), ex.pos(fn.Pos()))
 	fr.block = fn.Blocks[0]
 	ex.runAll(st)
